@@ -269,13 +269,15 @@ def read_cgsmiles(pattern):
         # last residue of a branch (i.e. '...[#residue])'
         # that is the case if the branch closure comes before
         # any new atom begins
-        branch_stop = _find_next_character(pattern, ['['], stop) >\
-                      _find_next_character(pattern, [')'], stop)
+        close_from = stop
+        branch_stop = _find_next_character(pattern, ['['], close_from) >\
+                      _find_next_character(pattern, [')'], close_from)
 
         # if the branch ends we reset the anchor
         # and set branching False unless we are in
-        # a nested branch
-        if stop <= len(pattern) and branch_stop:
+        # a nested branch; a branch can end in a nested
+        # branch, in which case several branches end here
+        while stop <= len(pattern) and branch_stop:
             branching = False
             prev_node = branch_anchor.pop()
             if branch_anchor:
@@ -286,7 +288,7 @@ def read_cgsmiles(pattern):
             # We need to know how often the branch has
             # to be added so we first identify the branch
             # terminal character ')' called eon_a.
-            eon_a = _find_next_character(pattern, [')'], stop)
+            eon_a = _find_next_character(pattern, [')'], close_from)
             # Then we check if the expansion character
             # is next.
             if (eon_a+1 < len(pattern) and pattern[eon_a+1] == "|") or\
@@ -350,6 +352,10 @@ def read_cgsmiles(pattern):
             # when all nested branches are completed
             if len(branch_anchor) == 0:
                 recipes = defaultdict(list)
+            # check if another branch ends before the next node starts
+            close_from = eon_a + 1
+            branch_stop = _find_next_character(pattern, ['['], close_from) >\
+                          _find_next_character(pattern, [')'], close_from)
 
     # raise some errors for strange stuff
     if cycle:
